@@ -199,6 +199,24 @@ def impl_run(case):
         st["terminated"] = proc._worker.terminated
         return outs, st
 
+    # every read the Redirector does goes through this proxy of `os` in its module namespace: a read on a descriptor that has
+    # nothing queued while its writer is open would not return on the blocking pipe of a real worker
+    import circus.stream.redirector as _redmod
+    would_block = []
+
+    class _OsProxy(object):
+        def __getattr__(self, name):
+            return getattr(os, name)
+
+        def read(self, fd, n):
+            try:
+                if _avail(fd) == 0 and any(p.rfd == fd and p.wfd is not None and not p.rfile.closed for p in allpipes):
+                    would_block.append(fd - base)
+            except OSError:
+                pass
+            return os.read(fd, n)
+    _saved_os = _redmod.os
+    _redmod.os = _OsProxy()
     try:
         for op in case["ops"]:
             k = op[0]
@@ -331,6 +349,8 @@ def impl_run(case):
                                     if p_.wfd is not None and red.running and p_.rfd not in loop.handlers]
             st["stale_stream"] = list(stale)
             del stale[:]
+            st["would_block"] = list(would_block)
+            del would_block[:]
             st["records"] = [[w, dm.get("name"), dm.get("pid"), list(dm.get("data", b""))] for w, dm in records[nrec:]]
             st.update(sizes())
             st["peak_live"] = peak_live
@@ -361,6 +381,7 @@ def impl_run(case):
         exc = {"harness_exception": "%s: %s" % (type(e).__name__, e), "tb": traceback.format_exc()[-1200:]}
         fin = None
     finally:
+        _redmod.os = _saved_os
         for p in allpipes:
             if p.wfd is not None:
                 try:
@@ -460,6 +481,11 @@ def oracle(case, obs):
                 fail("read-but-not-delivered", "%d bytes left the pipe, %d were delivered" % (taken, got), j)
             if st["pre_avail"] > 0 and got == 0 and case["buffer"] > 0:
                 fail("readable-not-read", "a readable pipe was not read", j)
+            if st["pre_avail"] > 0 and st.get("would_block"):
+                # the harness' pipes are non-blocking so that it survives this; a real worker's pipe is a blocking descriptor
+                fail("read-would-block", "one readiness event with %d byte(s) queued, and the handler read again once they "
+                     "were gone while the writer is still open: on the blocking pipe of a real worker this read stalls the "
+                     "daemon's event loop until the worker writes again or exits" % st["pre_avail"], j)
             if st["pre_avail"] == 0 and st["writer_closed"] and case["buffer"] > 0:
                 # the EOF read
                 if any(st["still_registered"]):
